@@ -14,10 +14,14 @@ NoCfg == [local |-> "", prefix |-> "", hints |-> <<>>,
           paths |-> [p \in {"x/d", "y/d"} |-> [std |-> "", guess |-> "d", quoted |-> "\"" \o p \o "\""]]]
 Raw(t) == Flat(R(NoCfg, t, NilC, <<>>)[1])
 Pieces(t) == R(NoCfg, t, NilC, <<>>)[1]
+\* the same under a File that aliases x/d (Dict cases: the rendered key text depends on the File's settings)
+DCfg(al) == IF al = "" THEN NoCfg ELSE [NoCfg EXCEPT !.hints = [p \in {"x/d"} |-> Def(al, TRUE)]]
+RawA(al, t) == Flat(R(DCfg(al), t, NilC, <<>>)[1])
+PiecesA(al, t) == R(DCfg(al), t, NilC, <<>>)[1]
 Seqs(S, n) == UNION {[1..k -> S] : k \in 0..n}
 
 (* ------------------------------ C13: lists ------------------------------ *)
-ItemKinds == {"x", "nil", "null", "estmt", "elist", "eunion", "etag", "nnull", "empty"}
+ItemKinds == {"x", "nil", "null", "estmt", "elist", "eunion", "etag", "nnull", "ecustom", "empty"}
 NullKinds == ItemKinds \ {"x", "empty"}
 Item(kind, i) ==
   CASE kind = "x"      -> Stmt(<<Id("x" \o ToString(i))>>)
@@ -28,6 +32,7 @@ Item(kind, i) ==
     [] kind = "eunion" -> Stmt(<<Grp("union", <<>>)>>)
     [] kind = "etag"   -> Stmt(<<TagC("")>>)
     [] kind = "nnull"  -> Stmt(<<Stmt(<<NullT>>), Stmt(<<>>)>>)
+    [] kind = "ecustom" -> Stmt(<<Custom("", "", ";", TRUE, <<Stmt(<<NullT>>)>>)>>)   \* a multi-line Custom group without delimiters, only nulls inside
     [] kind = "empty"  -> Stmt(<<EmptyT>>)
 \* constructs under test: every variadic construct of the table and three Custom shapes
 Customs == {"custom,", "custom;multi", "customnone"}
@@ -61,11 +66,12 @@ C13_Holds(cs) ==
 
 (* -------------------------- C16 / C07: dicts ---------------------------- *)
 \* key / value pools; texts are listed in byte order in KeyOrder so that the model can sort
-KeyPool == {"a", "ab", "1", "f1", "f2", "qx", "qy", "null"}
+KeyPool == {"a", "ab", "a1", "1", "f1", "f2", "qx", "qy", "null"}
 ValPool == {"v1", "vq", "null"}
 KeyCode(k, i) ==
   CASE k = "a"    -> Stmt(<<Id("a")>>)
     [] k = "ab"   -> Stmt(<<Id("ab")>>)
+    [] k = "a1"   -> Stmt(<<Id("a1")>>)
     [] k = "1"    -> Stmt(<<LitT("1")>>)
     [] k = "f1"   -> Stmt(<<Id("f"), Grp("call", <<>>)>>)
     [] k = "f2"   -> Stmt(<<Id("f"), Grp("call", <<>>)>>)      \* a second key with the same rendered text
@@ -73,21 +79,21 @@ KeyCode(k, i) ==
     [] k = "qy"   -> Qual("y/d", "K")
     [] k = "null" -> Stmt(<<NullT>>)
 \* the value identifies its key (so that a value attached to another pair's key is visible)
-KeyNo(k) == CASE k = "a" -> "10" [] k = "ab" -> "11" [] k = "1" -> "12" [] k = "f1" -> "13" [] k = "f2" -> "14"
+KeyNo(k) == CASE k = "a" -> "10" [] k = "ab" -> "11" [] k = "a1" -> "18" [] k = "1" -> "12" [] k = "f1" -> "13" [] k = "f2" -> "14"
               [] k = "qx" -> "15" [] k = "qy" -> "16" [] k = "null" -> "17"
 ValCode(v, k) ==
   CASE v = "v1"   -> Stmt(<<LitT(KeyNo(k))>>)
     [] v = "vq"   -> Qual("x/d", "V" \o KeyNo(k))
     [] v = "null" -> Stmt(<<NullT>>)
 \* byte order of every key text that can occur ("1" < "a" < "ab" < "d.K" < "d1.K" < "f ()"; statement items are joined by one blank)
-KeyOrder == <<"1", "a", "ab", "d.K", "d1.K", "f ()">>
+KeyOrder == <<"1", "a", "a1", "ab", "d.K", "d1.K", "f ()", "zz.K">>
 Rank(t) == CHOOSE i \in DOMAIN KeyOrder : KeyOrder[i] = t
 \* a dict case: pairs (sequence of <<key, val>> names, first-pass visiting order = sequence order)
 DictTree(pairs, order) == Stmt(<<Kw("var"), Id("_"), Op("="), Id("T"), Grp("values", <<Dict([i \in DOMAIN pairs |-> Pair(KeyCode(pairs[i][1], i), ValCode(pairs[i][2], pairs[i][1]))], order)>>)>>)
 \* the order of the second pass is the sorted order of the key texts rendered in the first pass
-KeyTexts(pairs) == DictKeys(NoCfg, [items |-> [i \in DOMAIN pairs |-> Pair(KeyCode(pairs[i][1], i), ValCode(pairs[i][2], pairs[i][1]))]], 1, <<>>, <<>>, {})[1]
-SortedOrder(pairs) ==
-  LET texts == KeyTexts(pairs)
+KeyTexts(al, pairs) == DictKeys(DCfg(al), [items |-> [i \in DOMAIN pairs |-> Pair(KeyCode(pairs[i][1], i), ValCode(pairs[i][2], pairs[i][1]))]], 1, <<>>, <<>>, {})[1]
+SortedOrder(al, pairs) ==
+  LET texts == KeyTexts(al, pairs)
       live  == {i \in DOMAIN pairs : texts[i] # ""}
   IN CHOOSE s \in [1..Len(pairs) -> DOMAIN pairs] :
        /\ \A i \in DOMAIN pairs : \E j \in DOMAIN s : s[j] = i
@@ -95,14 +101,14 @@ SortedOrder(pairs) ==
             (Rank(texts[s[i]]) < Rank(texts[s[j]]) \/ (Rank(texts[s[i]]) = Rank(texts[s[j]]) /\ s[i] < s[j]))
        /\ \A i, j \in DOMAIN s : (i < j /\ s[i] \notin live /\ s[j] \notin live) => s[i] < s[j]
        /\ \A i, j \in DOMAIN s : (s[i] \in live /\ s[j] \notin live) => i < j
-DictCase(pairs) ==
-  [kind |-> "c16", pairs |-> pairs, tree |-> DictTree(pairs, SortedOrder(pairs)),
+DictCase(al, pairs) ==
+  [kind |-> "c16", alias |-> al, pairs |-> pairs, tree |-> DictTree(pairs, SortedOrder(al, pairs)),
    known |-> IF \E i, j \in DOMAIN pairs : pairs[i][1] = "qx" /\ pairs[j][1] = "qy" /\ pairs[i][2] # "null" /\ pairs[j][2] # "null" THEN "F7"
              ELSE IF \E i, j \in DOMAIN pairs : pairs[i][1] = "f1" /\ pairs[j][1] = "f2" /\ pairs[i][2] # "null" /\ pairs[j][2] # "null" THEN "F6b" ELSE "",
    live |-> Cardinality({i \in DOMAIN pairs : pairs[i][1] # "null" /\ pairs[i][2] # "null"})]
 \* distinct keys, except that f1/f2 may both occur (identical text) and qx/qy (colliding base names)
 PairSeqs == {ps \in Seqs(KeyPool \X ValPool, MaxArity) : \A i, j \in DOMAIN ps : i # j => ps[i][1] # ps[j][1] \/ ps[i][1] = "null"}
-DictCases == {DictCase(ps) : ps \in PairSeqs}
+DictCases == {DictCase(al, ps) : al \in {"", "zz"}, ps \in PairSeqs}
 
 \* the property on the model: every live pair exactly once as key:value, in key order
 PairPieces(ps, i) == Flat(Pieces(KeyCode(ps[i][1], i)))   \* (only used for keys without package references)
@@ -110,13 +116,17 @@ Count(ps, s) == Cardinality({i \in DOMAIN ps : ps[i].s = s})
 IsPermOf(pairs, p) == /\ Len(p) = Len(pairs) /\ \A i \in DOMAIN pairs : \E j \in DOMAIN p : p[j] = i
 Permuted(pairs, p) == [i \in DOMAIN p |-> pairs[p[i]]]
 C16_Holds(cs) ==
-  LET pv == Pieces(cs.tree)
+  LET pv == PiecesA(cs.alias, cs.tree)
       colons == Count(pv, ":")
       liveIdx == {i \in DOMAIN cs.pairs : cs.pairs[i][1] # "null" /\ cs.pairs[i][2] # "null"}
       valText(i) == IF cs.pairs[i][2] = "v1" THEN KeyNo(cs.pairs[i][1]) ELSE "V" \o KeyNo(cs.pairs[i][1])
   IN /\ colons = cs.live                                       \* one "key: value" per live pair
      /\ \A i \in liveIdx : Count(pv, valText(i)) = 1            \* every live pair exactly once (its value names its key)
      /\ (cs.live > 1) = (\E i \in DOMAIN pv : pv[i].c = "nl")   \* several pairs: one per line; one pair: inline
+     \* ordered by the rendered text of the keys (under THIS File's settings)
+     /\ LET texts == KeyTexts(cs.alias, cs.pairs)
+            ord == SelectSeq(cs.tree.items[5].items[1].order, LAMBDA i : texts[i] # "")
+        IN \A i \in 1..(Len(ord) - 1) : Rank(texts[ord[i]]) <= Rank(texts[ord[i + 1]])
 \* Known findings of C07 (see known-findings.txt): the first pass visits the pairs in map order, and
 \*  F7  keys that reference two not yet imported paths with the same base name get their aliases in that order;
 \*  F6b keys that render identically keep their visiting order.
@@ -127,11 +137,11 @@ KnownF6b(cs) == LiveKey(cs, "f1") /\ LiveKey(cs, "f2")
 C07_Holds(cs) ==
   \A p \in [1..Len(cs.pairs) -> DOMAIN cs.pairs] :
      IsPermOf(cs.pairs, p) =>
-       LET qs == Permuted(cs.pairs, p) IN Raw(DictTree(qs, SortedOrder(qs))) = Raw(cs.tree)
+       LET qs == Permuted(cs.pairs, p) IN RawA(cs.alias, DictTree(qs, SortedOrder(cs.alias, qs))) = RawA(cs.alias, cs.tree)
 
 (* ----------------------------- C15: comments ---------------------------- *)
 Containers == {"block", "defs", "struct", "interface", "caseblock", "file"}
-CmtClasses == {"plain", "codelike", "brace", "quote", "slashes", "nl", "nlend", "buildtag"}
+CmtClasses == {"plain", "codelike", "brace", "quote", "slashes", "nl", "nlend", "leadnl", "buildtag"}
 CmtText(cl) ==
   CASE cl = "plain"    -> CmtS("note", "line")
     [] cl = "codelike" -> CmtS("x := f(1)", "line")
@@ -140,6 +150,7 @@ CmtText(cl) ==
     [] cl = "slashes"  -> CmtS("see a // b", "line")
     [] cl = "buildtag" -> CmtS("+build ignore", "line")     \* text the standard formatter itself interprets (known finding F11)
     [] cl = "nl"       -> CmtS("one\ntwo", "block")
+    [] cl = "leadnl"   -> CmtS("\ncounter++", "block")
     [] cl = "nlend"    -> CmtS("one\ntwo\n", "blocknl")
 \* items are the statements a1, a2, a3; the comment is an item of its own (before item pos, pos = n+1: last)
 \* or is appended at the end of item pos
@@ -204,10 +215,10 @@ C08_Holds(cs) == Raw(cs.tree) = Raw(cs.tree)
 \* Lists and dicts are grown one item / pair per step, so that every case is a state and the
 \* exploration is spread over TLC's workers; comment cases are initial states.
 CaseOf(st) == CASE st.u = "lists" -> ListCase(st.name, st.kinds)
-                [] st.u = "dicts" -> DictCase(st.pairs)
+                [] st.u = "dicts" -> DictCase(st.alias, st.pairs)
                 [] st.u \in {"comments", "repeat"} -> st.cs
 Init == CASE Universe = "lists"    -> c \in {[u |-> "lists", name |-> n, kinds |-> <<>>] : n \in ListConstructs}
-          [] Universe = "dicts"    -> c = [u |-> "dicts", pairs |-> <<>>]
+          [] Universe = "dicts"    -> c \in {[u |-> "dicts", alias |-> al, pairs |-> <<>>] : al \in {"", "zz"}}
           [] Universe = "comments" -> c \in {[u |-> "comments", cs |-> x] : x \in {y \in CmtCases : ValidCmt(y)}}
           [] Universe = "repeat"   -> c \in {[u |-> "repeat", cs |-> x] : x \in RepeatCases}
 Next == \/ /\ c.u = "lists" /\ Len(c.kinds) < MaxArity
